@@ -12,7 +12,7 @@
    eigenpairs exists; it then necessarily satisfies lin_eig / lin_norm (first-order part of C01_eig_secant_eig /
    C01_eig_secant_norm).  That part stays with the finite-difference oracle.
    The sparse routines are correct only for symmetric pencils: `_partial` statements carry A^T = A, B^T = B; the
-   `_refuted` statements give a non-symmetric 2 x 2 witness over every field (finding NEW_C01_sparse_eig_nonsymmetric). *)
+   `_refuted` statements give a non-symmetric 2 x 2 witness over every field (finding K08_C01_sparse_eig_nonsymmetric). *)
 From mathcomp Require Import all_ssreflect all_algebra.
 From Pymoto Require Import Model.EigAdj Proofs.EigAdjP.
 Import GRing.Theory.
